@@ -719,12 +719,21 @@ class UnitDatabase(Singleton):
         if category_info.valid_units is not None:
             return category_info.valid_units
         else:
-            if category_info.quantity_type != category:
-                return self.GetValidUnits(category_info.quantity_type)
+            quantity_type = category_info.quantity_type
+            if quantity_type != category:
+                # use the valid units of the category named after the quantity type (if there is
+                # such a category for this quantity type)
+                quantity_type_category_info = self.categories_to_quantity_types.get(quantity_type)
+                if (
+                    quantity_type_category_info is not None
+                    and quantity_type_category_info.quantity_type == quantity_type
+                    and quantity_type_category_info.valid_units is not None
+                ):
+                    return quantity_type_category_info.valid_units
 
             # the valid units have not been specified for the given category (so, let's return
             # the units for the quantity type)
-            return self.GetUnits(category_info.quantity_type)
+            return self.GetUnits(quantity_type)
 
     def GetDefaultValue(self, category: str) -> float:
         """
